@@ -1,4 +1,441 @@
-//! C14: not built yet.
-use crate::util::Ctx;
+//! C14 — schema validation agrees with the specification.
+//! Oracle: `Schema::parse_and_validate(src)` is Ok  iff  the independent validator (specschema.rs,
+//! written from the October-2021 text) finds no violated rule, under apollo-compiler's documented
+//! differences (`Params::apollo()`).  Correspondence streams `c14.*` tie the Lean models of the
+//! algorithmic rules (input-object cycle search, transitive interfaces, root operations, directive
+//! self-reference search) to the real code through public validation of generated schemas.
+use crate::schemagen::*;
+use crate::specschema::{self, Params, SpecSchema};
+use crate::util::*;
+use apollo_compiler::validation::Valid;
+use apollo_compiler::{ast, Schema};
 
-pub fn run(_ctx: &mut Ctx) {}
+pub struct Verdict {
+    pub spec: SpecSchema,
+    pub apollo: Result<Valid<Schema>, Vec<String>>,
+}
+
+/// apollo's first diagnostic, mapped to this harness' rule names (used only to *name* a finding class)
+fn classify_apollo(msgs: &[String]) -> String {
+    const TABLE: &[(&str, &str)] = &[
+        ("too deeply nested", "nesting-limit"),
+        ("must not start with", "reserved-name"), ("reserved", "reserved-name"),
+        ("is defined multiple times", "unique-names"), ("redefine", "unique-names"), ("duplicate", "unique-names"), ("more than once", "unique-names"),
+        ("multiple", "unique-names"),
+        ("must have a `query` root", "query-root-required"), ("root operation", "root-types"),
+        ("recursive", "cycle"), ("cannot reference itself", "cycle"), ("references itself", "cycle"),
+        ("transitive", "transitive-interfaces-declared"),
+        ("does not satisfy interface", "impl"), ("interface field", "impl"), ("implement", "impl"), ("missing", "impl"),
+        ("cannot find type", "undefined-type"), ("undefined", "undefined"), ("not defined", "undefined"), ("cannot find directive", "directive-known"),
+        ("is not supported for", "directive-location"), ("not an output type", "field-type-output"), ("not an input type", "argument-type-input"),
+        ("output type", "field-type-output"), ("input type", "argument-type-input"),
+        ("must be an object", "object-kind"), ("union member", "union-member-object"),
+        ("required argument", "directive-argument-required"), ("is required", "directive-argument-required"),
+        ("expected value of type", "directive-argument-type"), ("cannot be coerced", "directive-argument-type"), ("int cannot represent", "directive-argument-type"),
+        ("non-repeatable", "directive-unique"), ("can only be used once", "directive-unique"),
+        ("extension", "extension"), ("extends", "extension"),
+        ("must have at least one", "non-empty"), ("no fields", "non-empty"), ("empty", "non-empty"),
+    ];
+    let Some(m) = msgs.first() else { return "no-diagnostic".into() };
+    let l = m.to_lowercase();
+    for (pat, rule) in TABLE { if l.contains(pat) { return rule.to_string(); } }
+    "other".into()
+}
+
+pub fn run_apollo(src: &str) -> Result<Result<Valid<Schema>, Vec<String>>, String> {
+    catch(|| match Schema::parse_and_validate(src, "s.graphql") {
+        Ok(s) => Ok(s),
+        Err(e) => Err(e.errors.iter().map(|d| d.error.to_string()).collect()),
+    })
+}
+
+/// Judge one schema text; returns None when the text is not syntactically a type-system document.
+pub fn judge(ctx: &mut Ctx, src: &str, label: &str) -> Option<Verdict> {
+    let Ok(doc) = ast::Document::parse(src, "s.graphql") else { ctx.stat("skipped_syntax_error"); if std::env::var("VH_DEBUG").is_ok() && label != "seed" { eprintln!("SYNTAX {label}\n{}\n", src); } return None };
+    if doc.definitions.iter().any(|d| matches!(d, ast::Definition::OperationDefinition(_) | ast::Definition::FragmentDefinition(_))) {
+        ctx.stat("skipped_executable_definition");
+        return None;
+    }
+    let spec = specschema::validate(&doc, &Params::apollo());
+    let apollo = match run_apollo(src) {
+        Err(p) => { ctx.fail("schema-validation-panic", src, &p); return None; }
+        Ok(r) => r,
+    };
+    ctx.stat("judged");
+    ctx.stat(&format!("label:{label}"));
+    let rules: Vec<String> = spec.violations.iter().cloned().collect();
+    if rules.is_empty() { ctx.stat("spec_valid"); } else { ctx.stat("spec_invalid"); }
+    for r in &rules { ctx.stat(&format!("violated:{r}")); }
+    if rules.len() == 1 { ctx.stat(&format!("violated_alone:{}", rules[0])); ctx.nontrivial(&format!("{}|{}", rules[0], src)); }
+    match (&apollo, rules.is_empty()) {
+        (Ok(_), true) | (Err(_), false) => {}
+        (Ok(_), false) => {
+            ctx.fail(&format!("apollo-accepts:{}", rules.join("+")), src, &format!("parse_and_validate is Ok but the specification rejects the schema: violated {rules:?} (generator: {label})"));
+        }
+        (Err(msgs), true) => {
+            ctx.fail(&format!("apollo-rejects:{}", classify_apollo(msgs)), src, &format!("the specification accepts the schema but parse_and_validate fails: {:?} (generator: {label})", msgs.iter().take(3).collect::<Vec<_>>()));
+        }
+    }
+    Some(Verdict { spec, apollo })
+}
+
+/// type-system definitions of a repo test file, re-printed (executable definitions dropped)
+fn seed_text(path: &std::path::Path) -> Option<String> {
+    let s = std::fs::read_to_string(path).ok()?;
+    if s.len() > 20_000 { return None; }
+    let doc = match ast::Document::parse(s, "seed.graphql") { Ok(d) => d, Err(_) => return None };
+    let mut out = String::new();
+    let mut any = false;
+    for d in &doc.definitions {
+        if matches!(d, ast::Definition::OperationDefinition(_) | ast::Definition::FragmentDefinition(_)) { continue; }
+        any = true;
+        out.push_str(&d.to_string());
+        out.push('\n');
+    }
+    if any { Some(out) } else { None }
+}
+
+const REGRESSION: &[&str] = &[
+    "type Query { a: Int }",
+    "type Q { a: Int }",
+    "schema { query: Q } type Q { a: Int }",
+    "schema { query: Q mutation: Q } type Q { a: Int }",
+    "schema { query: I } interface I { a: Int }",
+    "extend schema @d type Query { a: Int } directive @d on SCHEMA",
+    "extend schema { query: Q } type Q { a: Int }",
+    "type Query { a: Int } extend type Query { a: String }",
+    "type Query { a: Int } input A { b: B! } input B { a: A! }",
+    "type Query { a: Int } input A { b: [A!]! c: A }",
+    "type Query { a: Int } input A { a: A! }",
+    "type Query { a(x: Int = \"no\"): Int }",
+    "type Query { a: Int } directive @d(a: Int @d) on ARGUMENT_DEFINITION",
+    "type Query { a: Int } directive @d(a: E) on ENUM_VALUE enum E { V @d }",
+    "type Query { a: Int } directive @skip(if: Boolean!) on FIELD",
+    "type Query { a: Int } directive @skip(if: Boolean!) on FIELD directive @skip(if: Boolean!) on FIELD",
+    "type Query { a: Int } scalar Int",
+    "type Query { a: Int } type __Type { a: Int }",
+    "type Query { a: Int } extend scalar Int @nope",
+    "type Query { a: Int } extend scalar String @specifiedBy(url: \"u\")",
+    "type Query { a: Int } extend scalar Int @specifiedBy(url: \"u\")",
+    "interface A implements B { x: Int } interface B implements A { x: Int } type Query { a: Int }",
+    "interface A { x: Int } interface B implements A { x: Int } type Query implements B { x: Int }",
+    "interface A { x(a: Int): Int } type Query implements A { x(a: Int, b: Int!): Int }",
+    "interface A { x: [A] } type Query implements A { x: [Query!]! }",
+    "union U = Query | Query type Query { a: U }",
+    "union U type Query { a: Int }",
+    "enum E type Query { a: Int }",
+    "type Query { __a: Int }",
+    "type Query { a(__b: Int): Int }",
+    "enum E { __V } type Query { a: E }",
+    "extend interface Query { b: Int } type Query { a: Int }",
+    "type Query { a: Int } extend interface Query { b: Int }",
+    "extend type Nope { b: Int } type Query { a: Int }",
+    "type Query { a: Int @deprecated(reason: 1) }",
+    "type Query { a: Int @deprecated(reason: null) }",
+    "directive @d(i: In) on OBJECT input In { a: Int! b: Int! = 1 } type Query @d(i: {a: 1, a: 2}) { a: Int }",
+    "directive @d(i: In) on OBJECT input In { a: Int! b: Int! = 1 } type Query @d(i: {}) { a: Int }",
+    "directive @d(i: [Int!]) on OBJECT type Query @d(i: [1, null]) { a: Int }",
+    "directive @d(i: Float) on OBJECT type Query @d(i: 1) { a: Int }",
+];
+
+pub fn random_valid(ctx: &mut Ctx) -> Vec<GDef> {
+    let mut g = Gen::new(&mut ctx.rng);
+    g.valid()
+}
+
+pub fn run(ctx: &mut Ctx) {
+    for s in REGRESSION { judge(ctx, s, "regression"); }
+    streams(ctx);
+    // repo test data as read-only seeds
+    let repo = std::env::var("VERIF_REPO").unwrap_or_else(|_| "/repo".into());
+    for dir in ["diagnostics", "ok"] {
+        let Ok(rd) = std::fs::read_dir(format!("{repo}/crates/apollo-compiler/test_data/{dir}")) else { continue };
+        let mut files: Vec<_> = rd.filter_map(|e| e.ok()).map(|e| e.path()).filter(|p| p.extension().is_some_and(|x| x == "graphql")).collect();
+        files.sort();
+        for f in files {
+            if let Some(t) = seed_text(&f) { ctx.stat("repo_seed_files"); judge(ctx, &t, "seed"); }
+        }
+    }
+    // generated: valid base, every mutation on it, and a few random double mutations
+    let n = if ctx.thorough { 4000 } else { 260 };
+    for round in 0..n {
+        let base = random_valid(ctx);
+        let text = print_doc(&base);
+        if let Some(v) = judge(ctx, &text, "valid") {
+            if !v.spec.violations.is_empty() { ctx.stat("generator_base_invalid"); if std::env::var("VH_DEBUG").is_ok() { eprintln!("BASE-INVALID {:?}\n{}\n", v.spec.violations, text); } }
+        }
+        for m in 0..N_MUTATIONS {
+            // quick tier: a rotating third of the mutation operators per base schema
+            if !ctx.thorough && (m + round) % 3 != 0 { continue; }
+            let mut d = base.clone();
+            let label = mutate(&mut d, &mut ctx.rng, m);
+            if label == "noop" { ctx.stat("mutation_noop"); continue; }
+            let t = print_doc(&d);
+            judge(ctx, &t, label);
+            if ctx.rng.chance(1, 6) {
+                let m2 = ctx.rng.below(N_MUTATIONS);
+                let l2 = mutate(&mut d, &mut ctx.rng, m2);
+                if l2 != "noop" { let t = print_doc(&d); judge(ctx, &t, "double"); }
+            }
+        }
+    }
+}
+
+// ---------------------------------------------------------------------------------------------
+// correspondence streams
+
+/// 0-based indices (line - 2) of the definitions that carry a diagnostic; Err on a diagnostic elsewhere
+fn failing_lines(src: &str, n: usize) -> Result<Result<Vec<usize>, String>, String> {
+    catch(|| match Schema::parse_and_validate(src, "s.graphql") {
+        Ok(_) => Ok(vec![]),
+        Err(e) => {
+            let mut out = vec![];
+            for d in e.errors.iter() {
+                let Some(r) = d.line_column_range() else { return Err(format!("unexpected:no-location:{}", d.error)) };
+                let l = r.start.line;
+                if l < 2 || l >= n + 2 { return Err(format!("unexpected:line{l}:{}", d.error)); }
+                out.push(l - 2);
+            }
+            Ok(out)
+        }
+    })
+}
+
+fn verdict_of(mut v: Vec<usize>) -> String {
+    v.sort(); v.dedup();
+    if v.is_empty() { "ok".into() } else { format!("err:{}", v.iter().map(|x| x.to_string()).collect::<Vec<_>>().join(",")) }
+}
+
+const LIMIT: usize = 32;
+
+#[derive(Clone, Copy, Debug)]
+enum IF { N(usize), Nl(usize), L(usize), Ll(usize), S }
+
+fn input_case(ctx: &mut Ctx, g: &[Vec<IF>]) {
+    let n = g.len();
+    let tn = |j: usize| if j < n { format!("In{j}") } else { "En".to_string() };
+    let mut text = String::from("type Query { a: Int }\n");
+    let mut encs = vec![];
+    for (i, fs) in g.iter().enumerate() {
+        let mut parts = vec![];
+        let mut e = vec![];
+        for (k, f) in fs.iter().enumerate() {
+            let (t, c) = match f { IF::N(j) => (format!("{}!", tn(*j)), format!("N{j}")), IF::Nl(j) => (tn(*j), format!("n{j}")), IF::L(j) => (format!("[{}!]!", tn(*j)), format!("L{j}")), IF::Ll(j) => (format!("[{}]", tn(*j)), format!("l{j}")), IF::S => ("Int!".to_string(), "S".to_string()) };
+            parts.push(format!("f{k}: {t}"));
+            e.push(c);
+        }
+        text.push_str(&format!("input In{i} {{ {} pad: Int }}\n", parts.join(" ")));
+        encs.push(e.join(","));
+    }
+    text.push_str("enum En { V }\n");
+    let out = match failing_lines(&text, n) {
+        Err(p) => { ctx.fail("schema-validation-panic", &text, &p); "PANIC".to_string() }
+        Ok(Err(u)) => u,
+        Ok(Ok(v)) => verdict_of(v),
+    };
+    if out != "ok" { ctx.nontrivial(&format!("ic|{}", encs.join("|"))); }
+    ctx.stat(if out == "ok" { "inputcycle_ok" } else { "inputcycle_err" });
+    ctx.case("c14.inputcycle", &[format!("={LIMIT}"), enc(&encs.join("|"))], &out);
+    judge(ctx, &text, "stream-inputcycle");
+}
+
+fn implements_case(ctx: &mut Ctx, types: &[(bool, Vec<usize>)]) {
+    let n = types.len();
+    let mut text = String::from("type Query { a: Int }\n");
+    let mut encs = vec![];
+    for (i, (is_if, imps)) in types.iter().enumerate() {
+        let names: Vec<String> = imps.iter().map(|j| if *j < n { format!("T{j}") } else { format!("Undef{j}") }).collect();
+        let imp = if names.is_empty() { String::new() } else { format!(" implements {}", names.join(" & ")) };
+        text.push_str(&format!("{} T{i}{imp} {{ x: Int }}\n", if *is_if { "interface" } else { "type" }));
+        encs.push(format!("{}:{}", if *is_if { "I" } else { "O" }, imps.iter().map(|x| x.to_string()).collect::<Vec<_>>().join(",")));
+    }
+    let out = match failing_lines(&text, n) {
+        Err(p) => { ctx.fail("schema-validation-panic", &text, &p); "PANIC".to_string() }
+        Ok(Err(u)) => u,
+        Ok(Ok(v)) => { let mut c = vec![0usize; n]; for l in v { c[l] += 1; } c.iter().map(|x| x.to_string()).collect::<Vec<_>>().join(",") }
+    };
+    if out.chars().any(|c| c != '0' && c != ',') { ctx.nontrivial(&format!("im|{}", encs.join("|"))); }
+    ctx.case("c14.implements", &[enc(&encs.join("|"))], &out);
+    judge(ctx, &text, "stream-implements");
+}
+
+fn roots_case(ctx: &mut Ctx, slots: [Option<usize>; 3]) {
+    // pool: 0,1 objects; 2 interface; 3 scalar; 4 undefined; 5 input object; 6 union; 7 enum
+    const POOL: [&str; 8] = ["A", "B", "I", "S", "Undef", "In", "U", "E"];
+    let mut text = String::from("type A { x: Int }\ntype B { x: Int }\ninterface I { x: Int }\nscalar S\ninput In { x: Int }\nunion U = A | B\nenum E { V }\n");
+    let ops = ["query", "mutation", "subscription"];
+    let parts: Vec<String> = slots.iter().enumerate().filter_map(|(i, s)| s.map(|j| format!("{}: {}", ops[i], POOL[j]))).collect();
+    if !parts.is_empty() { text.push_str(&format!("schema {{ {} }}\n", parts.join(" "))); }
+    let encs: Vec<String> = slots.iter().map(|s| match s { None => "=-".to_string(), Some(j) => format!("={}{j}", match j { 0 | 1 => 'o', 4 => 'u', _ => 'k' }) }).collect();
+    let out = match run_apollo(&text) {
+        Err(p) => { ctx.fail("schema-validation-panic", &text, &p); "PANIC".to_string() }
+        Ok(Ok(_)) => "ok".to_string(),
+        Ok(Err(m)) => format!("err:{}", m.len()),
+    };
+    if out != "ok" { ctx.nontrivial(&format!("ro|{}", encs.join("|"))); }
+    ctx.case("c14.roots", &encs, &out);
+    judge(ctx, &text, "stream-roots");
+}
+
+#[derive(Clone, Debug, Default)]
+struct DA { dirs: Vec<usize>, ty: Option<usize> }
+#[derive(Clone, Debug, Default)]
+struct DT { kind: u8, dirs: Vec<usize>, values: Vec<Vec<usize>>, fields: Vec<DA> }
+
+fn dir_case(ctx: &mut Ctx, dirs: &[Vec<DA>], types: &[DT]) {
+    let nd = dirs.len();
+    let app = |v: &[usize]| v.iter().map(|d| format!(" @d{d}")).collect::<String>();
+    let nums = |v: &[usize]| v.iter().map(|x| x.to_string()).collect::<Vec<_>>().join(",");
+    let arg = |k: usize, a: &DA| format!("a{k}: {}{}", a.ty.map(|t| format!("T{t}")).unwrap_or("Int".into()), app(&a.dirs));
+    let enc_arg = |a: &DA| format!("{}:{}", nums(&a.dirs), a.ty.map(|t| t.to_string()).unwrap_or("-".into()));
+    let mut text = String::from("type Query { a: Int }\n");
+    let mut denc = vec![];
+    for (i, args) in dirs.iter().enumerate() {
+        let a = if args.is_empty() { String::new() } else { format!("({})", args.iter().enumerate().map(|(k, a)| arg(k, a)).collect::<Vec<_>>().join(", ")) };
+        text.push_str(&format!("directive @d{i}{a} repeatable on ARGUMENT_DEFINITION | SCALAR | ENUM | ENUM_VALUE | INPUT_OBJECT | INPUT_FIELD_DEFINITION\n"));
+        denc.push(args.iter().map(|a| enc_arg(a)).collect::<Vec<_>>().join(";"));
+    }
+    let mut tenc = vec![];
+    for (k, t) in types.iter().enumerate() {
+        match t.kind {
+            0 => text.push_str(&format!("scalar T{k}{}\n", app(&t.dirs))),
+            1 => text.push_str(&format!("enum T{k}{} {{ {} VZ }}\n", app(&t.dirs), t.values.iter().enumerate().map(|(j, v)| format!("V{j}{}", app(v))).collect::<Vec<_>>().join(" "))),
+            _ => text.push_str(&format!("input T{k}{} {{ {} pad: Int }}\n", app(&t.dirs), t.fields.iter().enumerate().map(|(j, a)| arg(j, a)).collect::<Vec<_>>().join(" "))),
+        }
+        tenc.push(format!("{}/{}/{}/{}", ["s", "e", "i"][t.kind as usize], nums(&t.dirs),
+            if t.kind == 1 { t.values.iter().map(|v| nums(v)).collect::<Vec<_>>().join(";") } else { String::new() },
+            if t.kind == 2 { t.fields.iter().map(|a| enc_arg(a)).collect::<Vec<_>>().join(";") } else { String::new() }));
+    }
+    let out = match failing_lines(&text, nd) {
+        Err(p) => { ctx.fail("schema-validation-panic", &text, &p); "PANIC".to_string() }
+        Ok(Err(u)) => u,
+        Ok(Ok(v)) => verdict_of(v),
+    };
+    if out != "ok" { ctx.nontrivial(&format!("dc|{}|{}", denc.join("|"), tenc.join("|"))); }
+    ctx.stat(if out == "ok" { "dircycle_ok" } else { "dircycle_err" });
+    ctx.case("c14.dircycle", &[format!("={LIMIT}"), enc(&denc.join("|")), enc(&tenc.join("|"))], &out);
+    judge(ctx, &text, "stream-dircycle");
+}
+
+fn streams(ctx: &mut Ctx) {
+    // ---- input-object cycle search
+    // exhaustive: two nodes, up to two fields each
+    let opts2: Vec<IF> = vec![IF::N(0), IF::N(1), IF::N(2), IF::Nl(0), IF::Nl(1), IF::L(0), IF::Ll(1), IF::S];
+    let mut node_shapes: Vec<Vec<IF>> = vec![vec![]];
+    for a in &opts2 { node_shapes.push(vec![*a]); }
+    for a in &opts2 { for b in &opts2 { node_shapes.push(vec![*a, *b]); } }
+    for a in &node_shapes { input_case(ctx, &[a.clone()]); }
+    for a in &node_shapes { for b in &node_shapes { if ctx.thorough || a.len() + b.len() <= 3 { input_case(ctx, &[a.clone(), b.clone()]); } } }
+    let opts3: Vec<Vec<IF>> = vec![vec![], vec![IF::N(0)], vec![IF::N(1)], vec![IF::N(2)], vec![IF::Nl(0)], vec![IF::L(1)], vec![IF::N(1), IF::N(2)], vec![IF::N(2), IF::N(0)]];
+    for a in &opts3 { for b in &opts3 { for c in &opts3 { input_case(ctx, &[a.clone(), b.clone(), c.clone()]); } } }
+    // deep chains around the recursion limit, open or closed in different places
+    for k in [2usize, 31, 32, 33, 34, 40] {
+        for close in 0..5 {
+            let mut g: Vec<Vec<IF>> = (0..k).map(|i| if i + 1 < k { vec![IF::N(i + 1)] } else { vec![] }).collect();
+            match close { 0 => {} 1 => g[k - 1].push(IF::N(0)), 2 => g[k - 1].push(IF::N(k / 2)), 3 => g[k - 1].push(IF::N(k - 1)), _ => { g[k - 1].push(IF::Nl(0)); g[0].insert(0, IF::N(k - 1)); } }
+            input_case(ctx, &g);
+        }
+    }
+    let n_rand = if ctx.thorough { 20_000 } else { 1_500 };
+    for _ in 0..n_rand {
+        let n = 1 + ctx.rng.below(8);
+        let g: Vec<Vec<IF>> = (0..n).map(|_| { let nf = ctx.rng.below(4); (0..nf).map(|_| { let j = ctx.rng.below(n + 1); match ctx.rng.below(8) { 0..=4 => IF::N(j), 5 => IF::Nl(j), 6 => IF::L(j), _ => IF::S } }).collect() }).collect();
+        input_case(ctx, &g);
+    }
+    // ---- implements
+    let subsets = |n: usize| -> Vec<Vec<usize>> { (0..(1usize << (n + 1))).map(|m| (0..=n).filter(|j| m & (1 << j) != 0).collect()).collect() };
+    for n in 1..=2usize {
+        let subs = subsets(n);
+        let mut idx = vec![0usize; n];
+        loop {
+            for kinds in 0..(1usize << n) {
+                let types: Vec<(bool, Vec<usize>)> = (0..n).map(|i| (kinds & (1 << i) != 0, subs[idx[i]].clone())).collect();
+                implements_case(ctx, &types);
+            }
+            let mut p = 0;
+            loop { if p == n { break; } idx[p] += 1; if idx[p] < subs.len() { break; } idx[p] = 0; p += 1; }
+            if p == n { break; }
+        }
+    }
+    let n_rand = if ctx.thorough { 20_000 } else { 1_500 };
+    for _ in 0..n_rand {
+        let n = 2 + ctx.rng.below(5);
+        let types: Vec<(bool, Vec<usize>)> = (0..n).map(|_| {
+            let is_if = ctx.rng.chance(3, 4);
+            let mut imps = vec![];
+            for j in 0..=n { if ctx.rng.chance(1, 3) { imps.push(j); } }
+            if ctx.rng.chance(1, 2) { let k = imps.len(); for a in 0..k { let b = ctx.rng.below(k); imps.swap(a, b); } }
+            (is_if, imps)
+        }).collect();
+        implements_case(ctx, &types);
+    }
+    // closed-by-construction implements lists (valid), then at most one declared interface dropped
+    let n_rand = if ctx.thorough { 20_000 } else { 1_500 };
+    for _ in 0..n_rand {
+        let n = 3 + ctx.rng.below(4);
+        let mut types: Vec<(bool, Vec<usize>)> = vec![];
+        for i in 0..n {
+            let mut imps: Vec<usize> = vec![];
+            for j in 0..i {
+                if types[j].0 && ctx.rng.chance(1, 2) {
+                    for t in types[j].1.clone() { if !imps.contains(&t) { imps.push(t); } }
+                    if !imps.contains(&j) { imps.push(j); }
+                }
+            }
+            let k = imps.len();
+            if ctx.rng.chance(1, 2) { for a in 0..k { let b = ctx.rng.below(k); imps.swap(a, b); } }
+            types.push((i + 1 < n || ctx.rng.chance(1, 2), imps));
+        }
+        if ctx.rng.chance(2, 3) {
+            let i = ctx.rng.below(n);
+            if !types[i].1.is_empty() { let k = ctx.rng.below(types[i].1.len()); types[i].1.remove(k); }
+        }
+        implements_case(ctx, &types);
+    }
+    // ---- root operations: exhaustive
+    for q in 0..9usize { for m in 0..9usize { for s in 0..9usize {
+        let f = |x: usize| if x == 0 { None } else { Some(x - 1) };
+        roots_case(ctx, [f(q), f(m), f(s)]);
+    } } }
+    // ---- directive self-reference search
+    for d in REG_DIR_CASES() { dir_case(ctx, &d.0, &d.1); }
+    for k in [31usize, 32, 33, 34] {
+        for close in 0..3 {
+            let mut dirs: Vec<Vec<DA>> = (0..k).map(|i| if i + 1 < k { vec![DA { dirs: vec![i + 1], ty: None }] } else { vec![] }).collect();
+            match close { 0 => {} 1 => dirs[k - 1].push(DA { dirs: vec![0], ty: None }), _ => dirs[k - 1].push(DA { dirs: vec![k / 2], ty: None }) }
+            dir_case(ctx, &dirs, &[]);
+        }
+    }
+    let n_rand = if ctx.thorough { 20_000 } else { 1_500 };
+    for _ in 0..n_rand {
+        let nd = 1 + ctx.rng.below(5);
+        let nt = ctx.rng.below(5);
+        let some_dirs = |r: &mut Rng, p: u32| -> Vec<usize> { let mut v = vec![]; while r.chance(1, p) && v.len() < 2 { v.push(r.below(nd)); } v };
+        let gen_arg = |r: &mut Rng| DA { dirs: some_dirs(r, 3), ty: if nt > 0 && r.chance(1, 2) { Some(r.below(nt)) } else { None } };
+        let dirs: Vec<Vec<DA>> = (0..nd).map(|_| { let na = ctx.rng.below(3); (0..na).map(|_| gen_arg(&mut ctx.rng)).collect() }).collect();
+        let types: Vec<DT> = (0..nt).map(|_| {
+            let kind = ctx.rng.below(3) as u8;
+            let mut t = DT { kind, dirs: some_dirs(&mut ctx.rng, 4), values: vec![], fields: vec![] };
+            if kind == 1 { let nv = ctx.rng.below(3); t.values = (0..nv).map(|_| some_dirs(&mut ctx.rng, 3)).collect(); }
+            if kind == 2 { let nf = ctx.rng.below(3); t.fields = (0..nf).map(|_| gen_arg(&mut ctx.rng)).collect(); }
+            t
+        }).collect();
+        dir_case(ctx, &dirs, &types);
+    }
+}
+
+#[allow(non_snake_case)]
+fn REG_DIR_CASES() -> Vec<(Vec<Vec<DA>>, Vec<DT>)> {
+    let a = |dirs: Vec<usize>, ty: Option<usize>| DA { dirs, ty };
+    vec![
+        (vec![vec![a(vec![0], None)]], vec![]),
+        (vec![vec![a(vec![1], None)], vec![a(vec![0], None)]], vec![]),
+        (vec![vec![a(vec![1], None)], vec![a(vec![1], None)]], vec![]),
+        (vec![vec![a(vec![], Some(0))]], vec![DT { kind: 2, dirs: vec![], values: vec![], fields: vec![a(vec![0], None)] }]),
+        (vec![vec![a(vec![], Some(0))]], vec![DT { kind: 2, dirs: vec![], values: vec![], fields: vec![a(vec![], Some(0)), a(vec![0], None)] }]),
+        (vec![vec![a(vec![], Some(0))], vec![a(vec![], Some(0))]], vec![DT { kind: 2, dirs: vec![], values: vec![], fields: vec![a(vec![1], None), a(vec![0], None)] }]),
+        (vec![vec![a(vec![], Some(0))]], vec![DT { kind: 1, dirs: vec![], values: vec![vec![], vec![0]], fields: vec![] }]),
+        (vec![vec![a(vec![], Some(0))]], vec![DT { kind: 0, dirs: vec![0], values: vec![], fields: vec![] }]),
+        (vec![vec![a(vec![], Some(0))], vec![]], vec![DT { kind: 2, dirs: vec![1], values: vec![], fields: vec![a(vec![], Some(1))] }, DT { kind: 1, dirs: vec![0], values: vec![], fields: vec![] }]),
+    ]
+}
